@@ -720,7 +720,7 @@ class TDS(BaseRoutine):
             logger.warning('Fixed time step must be positive, current value is %g',
                            config.tstep)
             logger.warning('Switching to automatic time steping')
-            config.fixt = False
+            config.fixt = 0
 
         if config.fixt:
             self.deltat = config.tstep
